@@ -285,7 +285,11 @@ def symbol_needs_import(fullname, namespaces):
                 continue
             # If we're doing static analysis where we also care about which
             # imports are unused, then mark the used ones now.
-            if isinstance(var, _UseChecker):
+            # (``type(var)`` and not ``isinstance``: the latter falls back to
+            # reading ``var.__class__``, i.e. runs a ``__class__`` property or
+            # ``__getattribute__`` of a user object, and raises ReferenceError
+            # for a dead ``weakref.proxy``.)
+            if issubclass(type(var), _UseChecker):
                 var.used = True
             # Suppose the user accessed fullname="foo.bar.baz.quux" and
             # suppose we see "foo.bar" was imported (or otherwise assigned) in
